@@ -8,7 +8,7 @@ open TmVerif.LR
 
 /-! ### one iteration acts by moves -/
 
-theorem xreduceTail_moves (x : XTables) (inp : Input) (b : Bool) (c2 : XCfg) (rule : Int) (ln : Nat)
+theorem xreduceTail_moves (x : XTables) (inp : Input) (b : Bool × Bool) (c2 : XCfg) (rule : Int) (ln : Nat)
     (lhs : Int) (off endo : Nat) : Moves inp b c2 (xreduceTail x c2 rule ln lhs off endo).cfg := by
   unfold xreduceTail
   split
@@ -25,7 +25,7 @@ theorem xreduceTail_moves (x : XTables) (inp : Input) (b : Bool) (c2 : XCfg) (ru
         · exact h1.tail (.setStack _ _ _ _)
         · exact h1.tail (.setStack _ _ _ _)
 
-theorem xreducePre_moves (x : XTables) (inp : Input) (b : Bool) (c1 : XCfg) (rule : Int) :
+theorem xreducePre_moves (x : XTables) (inp : Input) (b : Bool × Bool) (c1 : XCfg) (rule : Int) :
     Moves inp b c1 (xreducePre x inp c1 rule).cfg := by
   unfold xreducePre
   split
@@ -36,47 +36,47 @@ theorem xreducePre_moves (x : XTables) (inp : Input) (b : Bool) (c1 : XCfg) (rul
       · exact xreduceTail_moves ..
   · exact .refl _
 
-theorem xshiftPre_moves (x : XTables) (inp : Input) (k : Nat) (c1 : XCfg) (q : Int) :
-    Moves inp true c1 (xshiftPre x k c1 q).cfg := by
+theorem xshiftPre_moves (x : XTables) (inp : Input) (e : Bool) (k : Nat) (c1 : XCfg) (q : Int) :
+    Moves inp (true, e) c1 (xshiftPre x k c1 q).cfg := by
   unfold xshiftPre
   split
-  · exact .single (.bump _ _)
+  · exact .single (.bump _ _ _)
   · split
     · exact .refl _
-    · next tk h => exact .single (.shift _ _ _ _ h)
+    · next tk h => exact .single (.shift _ _ _ _ _ h)
 
-theorem xerrorPre_moves (x : XTables) (inp : Input) (k : Nat) (c1 : XCfg) :
-    Moves inp true c1 (xerrorPre x k c1).cfg := by
+theorem xerrorPre_moves (x : XTables) (inp : Input) (e : Bool) (k : Nat) (c1 : XCfg) :
+    Moves inp (true, e) c1 (xerrorPre x k c1).cfg := by
   unfold xerrorPre
   split
   · split
-    · exact .single (.bump _ _)
-    · exact .single (.bump _ _)
+    · exact .single (.bump _ _ _)
+    · exact .single (.bump _ _ _)
   · exact .refl _
 
-theorem xpre_moves (x : XTables) (inp : Input) (k : Nat) (c : XCfg) :
-    Moves inp true c (xpre x inp k c).cfg := by
+theorem xpre_moves (x : XTables) (inp : Input) (e : Bool) (k : Nat) (c : XCfg) :
+    Moves inp (true, e) c (xpre x inp k c).cfg := by
   unfold xpre
   split
   · exact .refl _
-  · next h => exact (xdecode_moves true h).trans (xreducePre_moves ..)
-  · next h => exact (xdecode_moves true h).trans (xshiftPre_moves ..)
-  · next h => exact (xdecode_moves true h).trans (xerrorPre_moves ..)
+  · next h => exact (xdecode_moves (true, e) h).trans (xreducePre_moves ..)
+  · next h => exact (xdecode_moves (true, e) h).trans (xshiftPre_moves ..)
+  · next h => exact (xdecode_moves (true, e) h).trans (xerrorPre_moves ..)
 
 theorem XPre.run_cfg_moves {x : XTables} (inp : Input) (fin : Int) (stop : Bool) (p : XPre) :
-    Moves inp true p.cfg (p.run (onError x inp fin stop)).cfg := by
+    Moves inp (true, true) p.cfg (p.run (onError x inp fin stop)).cfg := by
   cases p with
   | cont c => exact .refl _
   | done r c => exact .refl _
   | err c => exact onError_moves inp true fin stop c
 
 theorem xstep_moves (x : XTables) (inp : Input) (fin : Int) (stop : Bool) (k : Nat) (c : XCfg) :
-    Moves inp true c (xstep x inp fin stop k c).cfg := by
+    Moves inp (true, true) c (xstep x inp fin stop k c).cfg := by
   rw [xstep_pre]
-  exact (xpre_moves x inp k c).trans (XPre.run_cfg_moves inp fin stop _)
+  exact (xpre_moves x inp true k c).trans (XPre.run_cfg_moves inp fin stop _)
 
 theorem xrunLoop_moves (x : XTables) (inp : Input) (fin : Int) (stop : Bool) (k : Nat) (fuel : Nat)
-    (c : XCfg) : Moves inp true c (xrunLoop x inp fin stop k fuel c).2 := by
+    (c : XCfg) : Moves inp (true, true) c (xrunLoop x inp fin stop k fuel c).2 := by
   induction fuel generalizing c with
   | zero => exact .refl _
   | succ n ih =>
